@@ -128,6 +128,22 @@ func runC08(t *testing.T, c simrt.Chooser, o Opts) *Out {
 		outStall = p.dur("outstallfor", time.Microsecond, time.Duration(int64(delay)/int64(sc.Requests+2)/2+1))
 		sc.OutStall = outStall.String()
 	}
+	if p.pct("backpressure", 12) {
+		// Back-pressure variant: tiny result buffers, few workers, every probe positive and an output
+		// that needs longer than the exit delay for ALL results but not for what the buffers can hold.
+		// While workers block handing over results, completion is not signalled; at completion at
+		// most 2 x capacity + a few results are pending, and those still drain within the delay.
+		sc.ResultCap = p.pick("bpcap", 1, 10)
+		sc.Workers = p.pick("bpworkers", 1, 2, 7)
+		sc.Requests = 300 + p.n("bpreq", 700)
+		sc.Positive, sc.Failing, sc.ReqErrs, sc.GenErr = 100, 0, 0, false
+		latMax = 1
+		sc.LatMax = latMax.String()
+		lim, sc.Rate = nil, ""
+		outStall = delay / time.Duration(4*(2*sc.ResultCap+sc.Workers+6))
+		sc.OutStall = outStall.String()
+		simrtFault(&Out{Stats: map[string]int{}}, "stdout-stall")
+	}
 	out := &Out{Scenario: sc, Stats: map[string]int{}}
 
 	reqErr := map[int]bool{}
